@@ -100,7 +100,6 @@ ATTRS = ['method', 'path', 'query_string', 'content_type', 'content_length', 'ac
          'root_path', 'uri_template', 'is_websocket', 'cookies']
 PROBE_PARAMS = ['a', 'b', 'id', 'flag', 'q', 'zz']
 PROBE_HEADERS = ['Content-Type', 'content-length', 'X-ABSENT', 'Host', 'cookie']
-QUERY_KEYS = None   # filled below
 
 
 def call(d, key, fn, *a, **kw):
@@ -175,13 +174,6 @@ def digest(req, params, probe_headers):
     for n in cks[:6] + ['absent']:
         call(d, 'get_cookie_values:' + n, req.get_cookie_values, n)
     return d
-
-
-QUERY_KEYS = ('query_string', 'params', 'uri', 'url', 'relative_uri', 'forwarded_uri', 'store')
-
-
-def is_query_key(k):
-    return k in QUERY_KEYS or k.startswith(('get_param', 'has_param'))
 
 
 # =================================================================================== script runner
@@ -668,7 +660,19 @@ def apps_for(opts):
             if exc_info is not None:
                 return start_response(status, headers, exc_info)
             return start_response(status, headers)
-        return wa(environ, sr)
+        it = wa(environ, sr)
+        chunks = hold['wbody'] = []
+
+        def tapped():
+            try:
+                for c in it:
+                    chunks.append(c)
+                    yield c
+            finally:
+                close = getattr(it, 'close', None)
+                if close is not None:
+                    close()
+        return tapped()
 
     async def atap(scope, receive, send):
         if scope['type'] != 'http':
@@ -734,9 +738,6 @@ def leg_a(req):
     return cap
 
 
-VALIDATOR_EXC = (AssertionError,)
-
-
 def leg_sim(req, asgi):
     """simulate_request leg; returns cap or None when not expressible."""
     kw, why = M.sim_kwargs(req, DEFAULT_UA)
@@ -756,11 +757,15 @@ def leg_sim(req, asgi):
         else:
             fw = W.FileWrapper if req['script']['file_wrapper'] else None
             result = testing.simulate_request(wtap, wsgierrors=io.StringIO(), file_wrapper=fw, **kw)
-    except VALIDATOR_EXC as ex:
-        cap['validator'] = repr(ex)[:200]
+    except AssertionError as ex:
+        if asgi:
+            cap['escaped'] = rec_exc(ex)
+        else:
+            cap['validator'] = repr(ex)[:200]       # wsgiref.validate refused the environ or the response
     except (TypeError, ValueError) as ex:
-        # ASGIResponseEventCollector validates events with these; an app error looks the same
-        cap['validator'] = repr(ex)[:200]
+        if asgi:
+            # ASGIResponseEventCollector validates events with these; an app error looks the same
+            cap['validator'] = repr(ex)[:200]
         cap['escaped'] = rec_exc(ex)
     except Exception as ex:  # noqa
         cap['escaped'] = rec_exc(ex)
@@ -778,17 +783,11 @@ def leg_sim(req, asgi):
                 body += ev.get('body', b'') or b''
         cap['resp'] = norm_triple(status, hs, body) if status is not None else None
     else:
-        if 'w' in hold and result is not None:
+        if 'w' in hold:
             st, hs = hold['w']
-            cap['resp'] = norm_triple(int(st[:3]), hs, result.content)
-        elif 'w' in hold:
-            st, hs = hold['w']
-            cap['resp'] = norm_triple(int(st[:3]), hs, None)
+            cap['resp'] = norm_triple(int(st[:3]), hs, b''.join(hold.get('wbody', [])))
         else:
             cap['resp'] = None
-    if result is not None and cap['resp'] is not None:
-        ro = {'status_code': result.status_code, 'content': result.content}
-        cap['result'] = ro
     cap['_result'] = result
     return cap, None
 
@@ -819,25 +818,6 @@ def compare_caps(c1, c2, resp_only=False):
     if c1.get('resp') != c2.get('resp'):
         out.append(('response', [c1.get('resp'), c2.get('resp')], ['resp']))
     return out
-
-
-def retunnel(v):
-    """What an ASGI server's UTF-8 reading makes of the bytes a WSGI server tunnels as latin-1."""
-    if isinstance(v, str):
-        try:
-            return v.encode('latin-1').decode('utf-8', 'replace')
-        except UnicodeEncodeError:
-            return v
-    if isinstance(v, list):
-        return [retunnel(x) for x in v]
-    if isinstance(v, dict):
-        return {retunnel(k): retunnel(x) for k, x in v.items()}
-    return v
-
-
-def slim(req):
-    r = dict(req)
-    return r
 
 
 def check_anchor(rec, req, cap):
@@ -1004,7 +984,15 @@ def _has_exc(record, name):
     return walk(record or [])
 
 
-def classify_wa(req, cls, cw, ca, diffs):
+def _pick(rec, used):
+    """several mechanisms in one witness: name one that is not yet recorded, so nothing new hides behind a known key"""
+    for k in used:
+        if k not in rec.known_keys:
+            return k
+    return used[0]
+
+
+def classify_wa(rec, req, cls, cw, ca, diffs):
     """WSGI-vs-ASGI findings; mechanisms may overlap in one request, so they are undone one after another."""
     used = []
     if 'raw8-query' in cls:
@@ -1017,13 +1005,14 @@ def classify_wa(req, cls, cw, ca, diffs):
             used.append(K_RAW8_QUERY)
             cw, diffs = w2, d2
         if not diffs:
-            return used[0]
+            return _pick(rec, used)
     keys = set()
     for d in diffs:
         keys.update(d[2])
     if not keys <= {'body', 'resp', 'trace'}:
         return None
-    if 'invalid-cl' in cls:
+    explained = set()
+    if 'invalid-cl' in cls and 'body' in keys:
         # (4) unparsable Content-Length: falcon.Request.bounded_stream swallows HTTPInvalidHeader and reads nothing,
         #     falcon.asgi.Request.stream lets HTTPInvalidHeader out
         #     -> wherever the WSGI leg obtained "no bytes", the ASGI leg has HTTPInvalidHeader, and nothing else differs
@@ -1039,11 +1028,26 @@ def classify_wa(req, cls, cw, ca, diffs):
         fw, fa = flat(cw.get('body'), []), flat(ca.get('body'), [])
         w_ok = all(t == ('bytes', b'') or t == ('EXC', 'HTTPInvalidHeader') for t in fw)
         a_ok = bool(fa) and all(t == ('EXC', 'HTTPInvalidHeader') for t in fa)
-        resp_ok = cw.get('resp') == ca.get('resp') or (ca.get('resp') or [None])[0] == 400
-        if w_ok and a_ok and resp_ok:
+        if w_ok and a_ok:
             used.append(K_INVALID_CL)
-            return used[0]
-    if keys == {'resp'} and req['script']['body'][0].startswith('stream') and cw.get('resp') and ca.get('resp'):
+            explained.add('body')
+            if (ca.get('resp') or [None])[0] == 400 and req['script']['propagate']:
+                explained.update(('resp', 'trace'))
+    cts = M.header_values(req, 'content-type')
+    if cts and 'multipart/form-data' in cts[-1].lower() and not M.has_header(req, 'content-length'):
+        # (6) multipart/form-data request without Content-Length: falcon/media/multipart.py MultipartForm.__init__
+        #     asserts content_length is not None (WSGI only) -> AssertionError -> 500; ASGI builds the form lazily and
+        #     answers MultipartParseError on iteration.  Undo: give the WSGI leg an explicit Content-Length: 0
+        if _has_exc(cw.get('body'), 'AssertionError') or (cw.get('resp') or [None])[0] == 500:
+            alt = json.loads(json.dumps(req))
+            alt['headers'].append(['content-length', '0'])
+            ref = leg_w(alt)
+            ok = {k for k in keys if ref.get(k) == ca.get(k)}
+            if ok:
+                used.append(K_MULTIPART_NO_CL)
+                explained |= ok
+    if 'resp' in keys and 'resp' not in explained and req['script']['body'][0].startswith('stream') \
+            and cw.get('resp') and ca.get('resp'):
         # (7) an exception handled at the render stage (after process_response) while resp.stream is still set:
         #     falcon/app.py answers with an empty body (Content-Length: 0), falcon/asgi/app.py falls through to
         #     `stream = resp.stream` and sends the stream's content under the error status
@@ -1056,18 +1060,9 @@ def classify_wa(req, cls, cw, ca, diffs):
             alt['script']['body'] = ['none']
             if not compare_caps(leg_w(alt), leg_a(alt), resp_only=True):
                 used.append(K_RENDER_ERR_STREAM)
-                return used[0]
-    cts = M.header_values(req, 'content-type')
-    if cts and 'multipart/form-data' in cts[-1].lower() and not M.has_header(req, 'content-length'):
-        # (6) multipart/form-data request without Content-Length: falcon/media/multipart.py MultipartForm.__init__
-        #     asserts content_length is not None (WSGI only) -> AssertionError -> 500; ASGI answers MultipartParseError
-        if _has_exc(cw.get('body'), 'AssertionError') or (cw.get('resp') or [None])[0] == 500:
-            alt = json.loads(json.dumps(req))
-            alt['headers'].append(['content-length', '0'])
-            ref = leg_w(alt)
-            if ref.get('body') == ca.get('body') and ref.get('resp') == ca.get('resp'):
-                used.append(K_MULTIPART_NO_CL)
-                return used[0]
+                explained.add('resp')
+    if used and keys <= explained:
+        return _pick(rec, used)
     return None
 
 
@@ -1100,7 +1095,7 @@ def classify(rec, req, pair, c1, c2, diffs):
             if not compare_caps(c1, leg_a(alt)):
                 return K_SIM_HOST if use_host else K_SIM_EMPTY_BODY
     if pair == 'W-A':
-        return classify_wa(req, cls, c1, c2, diffs)
+        return classify_wa(rec, req, cls, c1, c2, diffs)
     if pair == 'SW-W' and keys <= {'body', 'resp', 'trace'}:
         # (5) `for chunk in req.bounded_stream`: BoundedStream.__next__ does next(self.stream); PEP 3333 only promises
         #     __iter__ on wsgi.input and wsgiref.validate's InputWrapper is not an iterator
@@ -1207,6 +1202,10 @@ def one(rec, req, family=None):
     findings = run_case(rec, req)
     nontrivial = json.dumps(req, sort_keys=True)
     rec.case(nontrivial)
+    rec.seen('scripts', json.dumps(req['script'], sort_keys=True))
+    rec.seen('targets', req['target'])
+    rec.seen('queries', req['query'])
+    rec.seen('header-lists', json.dumps(req['headers']))
     if family:
         rec.count('fam.' + family)
     if findings:
@@ -1257,10 +1256,10 @@ def setup(rec):
 FLOORS = {
     'quick': {'mon.digest.W-A': 3000, 'mon.response.W-A': 3000, 'mon.digest.SW-W': 1500, 'mon.digest.SA-A': 1500,
               'mon.response.SW-W': 1500, 'mon.response.SA-A': 1500, 'mon.anchor': 3000, 'mon.anchor.body': 100,
-              'mon.result-object': 1500, 'random.cases': 200},
+              'mon.result-object': 1500, 'random.cases': 100},
     'thorough': {'mon.digest.W-A': 20000, 'mon.response.W-A': 20000, 'mon.digest.SW-W': 8000, 'mon.digest.SA-A': 8000,
                  'mon.response.SW-W': 8000, 'mon.response.SA-A': 8000, 'mon.anchor': 20000, 'mon.anchor.body': 1000,
-                 'mon.result-object': 8000, 'random.cases': 5000},
+                 'mon.result-object': 8000, 'random.cases': 2000},
 }
 CLASS_FLOORS = ['cls.path-pct-utf8', 'cls.path-invalid-utf8', 'cls.path-trailing-slash', 'cls.raw8-path', 'cls.query',
                 'cls.list-repeat', 'cls.hdr-casing', 'cls.body', 'cls.chunked-arrival', 'cls.https', 'cls.port-nondefault',
